@@ -283,3 +283,32 @@ func TestDefectD21GroupAsListedTwice(t *testing.T) {
 		t.Fatal(err)
 	}
 }
+
+type d22Out struct {
+	dig.Out
+	V int `group:"x"`
+}
+type d22In struct {
+	dig.In
+	V []int `group:"x"`
+}
+type d22Dec struct {
+	dig.Out
+	V [][]int `group:"x,flatten"`
+}
+
+// D22 (C14, rule G-typed-store): a decorator's flatten group result was accepted
+// and its whole value stored under the element type's group key; the next
+// consumer of the group panicked in reflect.Value.Set inside Invoke.
+func TestDefectD22DecorateFlattenPanics(t *testing.T) {
+	c := dig.New()
+	if err := c.Provide(func() d22Out { return d22Out{V: 1} }); err != nil {
+		t.Fatal(err)
+	}
+	noPanic(t, func() {
+		if err := c.Decorate(func(i d22In) d22Dec { return d22Dec{V: [][]int{i.V}} }); err != nil {
+			return // rejected: fine
+		}
+		_ = c.Invoke(func(i d22In) {})
+	})
+}
